@@ -20,6 +20,45 @@ extern void (*ares_verif_now_cb)(long long *sec, unsigned int *usec);
  * by the callback. */
 extern void (*ares_verif_rand_cb)(unsigned char *buf, size_t len);
 
+/* H3: synchronisation events.  When set, called from the thread wrappers in
+ * ares_threads.c: after a mutex has been acquired, before it is released,
+ * before / after a condition wait (the mutex is held at both points), at
+ * signal / broadcast, after a thread has been created (before its handle is
+ * stored through the caller's pointer) and after a thread has been joined.
+ * ACCESS events mark places that touch channel state and therefore must run
+ * under the channel lock (obj = channel, aux = place specific scalar). WAKE
+ * marks a write to the event thread's wake handle (obj = event thread). */
+typedef enum {
+  ARES_VERIF_SYNC_LOCK        = 1,  /* obj = mutex (after acquisition) */
+  ARES_VERIF_SYNC_UNLOCK      = 2,  /* obj = mutex (before release) */
+  ARES_VERIF_SYNC_CWAIT       = 3,  /* obj = cond, aux = mutex (before wait) */
+  ARES_VERIF_SYNC_CWAKE       = 4,  /* obj = cond, aux = mutex (after wait) */
+  ARES_VERIF_SYNC_CWAKE_TMO   = 5,  /* same, the timed wait timed out */
+  ARES_VERIF_SYNC_CSIGNAL     = 6,  /* obj = cond */
+  ARES_VERIF_SYNC_CBROADCAST  = 7,  /* obj = cond */
+  ARES_VERIF_SYNC_TCREATE     = 8,  /* obj = new thread handle */
+  ARES_VERIF_SYNC_TJOIN       = 9,  /* obj = joined thread handle */
+  ARES_VERIF_SYNC_ACCESS      = 10, /* obj = channel, aux = (void *)place/len */
+  ARES_VERIF_SYNC_WAKE        = 11, /* obj = event thread */
+  /* H5: unlocked shared accesses to channel->reinit_thread */
+  ARES_VERIF_SYNC_SHARED_READ  = 12, /* obj = &var, aux = value read */
+  ARES_VERIF_SYNC_SHARED_WRITE = 13  /* obj = &var, aux = value written */
+} ares_verif_sync_t;
+
+extern void (*ares_verif_sync_cb)(int kind, const void *obj, const void *aux);
+
+/* H4: event loop phases.  When set, called by the event thread (its mutex is
+ * NOT held at any of these points). */
+typedef enum {
+  ARES_VERIF_PHASE_TIMEOUT = 1, /* updates processed, about to compute timeout */
+  ARES_VERIF_PHASE_WAIT    = 2, /* about to wait, arg = timeout_ms (0 = inf) */
+  ARES_VERIF_PHASE_WOKEN   = 3, /* wait returned */
+  ARES_VERIF_PHASE_PROCESS = 4, /* about to process timeouts / cleanup */
+  ARES_VERIF_PHASE_EXIT    = 5  /* event thread is exiting its loop */
+} ares_verif_phase_t;
+
+extern void (*ares_verif_phase_cb)(int phase, unsigned long arg);
+
 #  ifdef __cplusplus
 }
 #  endif
